@@ -199,6 +199,7 @@ class Sim:
         self.lib_logs = []
         self.clock_reads = 0
         self.pending_hooks = {}
+        self.hook_owner = {}  # hook id -> endpoint label
         self.hook_counts = collections.Counter()
         self.next_hook_id = 0
         self.write_counts = collections.Counter()
@@ -281,12 +282,18 @@ class Sim:
             self.next_hook_id += 1
             hid = self.next_hook_id
             self.pending_hooks[hid] = fut
+            self.hook_owner[hid] = label
             self.rec("hook_park", label, hname, hid)
             self.fault("hook_suspended")
             try:
                 await fut
             finally:
                 self.pending_hooks.pop(hid, None)
+            ep = getattr(self, "eps", None) and self.eps.get(label)
+            if ep is not None and getattr(ep, "_disconnect_in_progress", None) is not None:
+                # reach probe: this task's processing resumes while another task's disconnect() is suspended
+                self.probe("hook_resumed_during_disconnect")
+                self.probe(f"hook_resumed_during_disconnect:{hname}:{ep.connection_state.name}")
         if self.decide(f"hookraise:{label}:{hname}:{n}", self.hook_raise_p(label, hname)):
             # fault injection: the application's own handler fails (the library logs it and carries on)
             self.rec("hook_raise", label, hname)
@@ -323,7 +330,8 @@ class Sim:
         for conn in self.net.conns:
             if conn.broken:
                 for side, kind in conn.notify_pending.items():
-                    out.append((("notify", conn.cid, side), 1.0))
+                    if conn.tr[side] is not None:  # (not accepted yet: the error waits for the transport)
+                        out.append((("notify", conn.cid, side), 1.0))
                 continue
             for s in (0, 1):
                 rx = conn.tr[1 - s]
@@ -343,7 +351,13 @@ class Sim:
                 if tr is not None and tr.paused:
                     out.append((("resume", conn.cid, s), cfg.get("w_resume", 2.0)))
         for hid in self.pending_hooks:
-            out.append((("hook_done", hid), cfg.get("w_hook_done", 2.0)))
+            w = cfg.get("w_hook_done", 2.0)
+            ep = getattr(self, "eps", None) and self.eps.get(self.hook_owner.get(hid))
+            if ep is not None and getattr(ep, "_disconnect_in_progress", None) is not None:
+                # fault placement: another task of this endpoint is suspended inside disconnect() right now -
+                # letting the parked task go on *inside* that window is the interleaving worth trying
+                w *= 8.0
+            out.append((("hook_done", hid), w))
         return out
 
     def deliverable(self):
@@ -417,7 +431,7 @@ class Sim:
                 return self.breakable(conn)
             if k == "notify":
                 conn = self.net.conns[a[1]]
-                return conn.broken and a[2] in conn.notify_pending
+                return conn.broken and a[2] in conn.notify_pending and conn.tr[a[2]] is not None
             if k == "partition":
                 conn = self.net.conns[a[1]]
                 return conn.alive() and not conn.partitioned
@@ -698,7 +712,8 @@ class Sim:
         for conn in self.net.conns:
             if conn.broken:
                 for side in sorted(conn.notify_pending):
-                    out.append(["notify", conn.cid, side])
+                    if conn.tr[side] is not None:
+                        out.append(["notify", conn.cid, side])
                 continue
             for s in (0, 1):
                 tr = conn.tr[s]
